@@ -44,10 +44,17 @@ const (
 	cmClientFirst = iota // client half-closes after its data; target answers EOF with Extra more bytes, then closes
 	cmTargetFirst        // target half-closes after its data; client answers EOF with Extra more bytes, then closes
 	cmBoth               // both half-close after their own data, independently
+	cmAbort              // one side ends the session abortively (SO_LINGER 0 -> RST) after bytes were relayed both ways
 	nCloseModes
 )
 
-var closeModeNames = [nCloseModes]string{"client-first", "target-first", "both"}
+// who resets in cmAbort
+const (
+	abClient = iota
+	abTarget
+)
+
+var closeModeNames = [nCloseModes]string{"client-first", "target-first", "both", "reset"}
 
 type connPlan struct {
 	Target     int    `json:"target"`
@@ -64,6 +71,11 @@ type connPlan struct {
 	// ViaDirect: in a chained case, route this connection (by its destination port) to the
 	// front instance's own direct client instead of the chain client.
 	ViaDirect bool `json:"via_direct,omitempty"`
+	// cmAbort only: who resets, and whether it waits until both sides have read everything
+	// (then the statistics must be exact) or resets as soon as the client has seen the first
+	// downlink byte and its own writes are done (bytes may be lost in flight).
+	AbortBy    int  `json:"abort_by,omitempty"`
+	AbortClean bool `json:"abort_clean,omitempty"`
 }
 
 func (p connPlan) upTotal() int64 {
@@ -167,7 +179,17 @@ func drawConn(rt *rapid.T, b int, unreachableOK bool) connPlan {
 	p.Down = drawChunks(rt, "down", b, 3)
 	p.SpeakFirst = rapid.Bool().Draw(rt, "speak-first")
 	p.Mode = rapid.IntRange(0, nCloseModes-1).Draw(rt, "mode")
-	if p.Mode != cmBoth {
+	if p.Mode == cmAbort {
+		p.AbortBy = rapid.IntRange(abClient, abTarget).Draw(rt, "abort-by")
+		p.AbortClean = rapid.Bool().Draw(rt, "abort-clean")
+		// bytes must have been relayed in each direction before the reset
+		if p.FirstLen == 0 {
+			p.FirstLen = drawSize(rt, "first-len", b)
+		}
+		if p.downTotal() == 0 {
+			p.Down = []int{drawSize(rt, "down", b)}
+		}
+	} else if p.Mode != cmBoth {
 		if rapid.IntRange(0, 4).Draw(rt, "extra0") == 0 {
 			p.Extra = 0
 		} else {
@@ -318,5 +340,6 @@ func (c casePlan) classKey(p connPlan) string {
 	}
 	return fmt.Sprintf("%s>%s tfo=%v nowait=%v auth=%v buf=%d | %s at=%s first=%s rest=%d down=%d sf=%v %s extra=%s",
 		c.Server, c.Client, c.DialerTFO, c.DisableWait, c.Auth, c.bufSize(),
-		targetKindNames[p.Target], firstAtNames[p.FirstAt], sz(p.FirstLen), len(p.UpRest), len(p.Down), p.SpeakFirst, closeModeNames[p.Mode], sz(p.Extra))
+		targetKindNames[p.Target], firstAtNames[p.FirstAt], sz(p.FirstLen), len(p.UpRest), len(p.Down), p.SpeakFirst, closeModeNames[p.Mode], sz(p.Extra)) +
+		fmt.Sprintf(" abort=%d/%v", p.AbortBy, p.AbortClean)
 }
